@@ -630,3 +630,7 @@ Proof.
     { destruct (0 <? s)%Z eqn:S; [apply Z.ltb_lt in S; lia|]. destruct u as [u|]; lia. }
     match goal with |- (_ <= ?d + ?d / 2 + _)%Z => assert (0 <= d / 2)%Z by (apply Z.div_pos; lia) end. lia.
 Qed.
+
+(* ------------------------------------------------------------------ file or URL *)
+Lemma route_of_stat_spec st : (route_of_stat st = RouteFile <-> st = StatOk) /\ (forall e, route_of_stat (StatOther e) = RouteURL).
+Proof. split; [destruct st; simpl; split; congruence|reflexivity]. Qed.
